@@ -506,978 +506,4 @@ theorem isotope_eq_one_atom_compound (t : Tbl ℝ) (x : Atom) (r : NRec ℝ) (ρ
   · unfold isotopeDensity; exact mul_ne_zero hρ (div_ne_zero hm hmEl)
   · unfold isotopeDensity; field_simp
 
-/-! ## C04: conversions between energy, wavelength and velocity -/
-
-theorem energyFactor_pos : (0 : ℝ) < PtGen.ENERGY_FACTOR := by
-  unfold PtGen.ENERGY_FACTOR PtGen.plancks_constant PtGen.electron_volt PtGen.neutron_mass
-    PtGen.atomic_mass_constant
-  positivity
-
-theorem velocityFactor_pos : (0 : ℝ) < PtGen.VELOCITY_FACTOR := by
-  unfold PtGen.VELOCITY_FACTOR PtGen.plancks_constant PtGen.electron_volt PtGen.neutron_mass
-    PtGen.atomic_mass_constant
-  positivity
-
-/-- `E · λ(E)² = ENERGY_FACTOR` -/
-theorem E_mul_lambda_sq (e : ℝ) (he : 0 < e) :
-    e * (neutronWavelength e * neutronWavelength e) = PtGen.ENERGY_FACTOR := by
-  unfold neutronWavelength
-  rw [sqrt_def, Real.mul_self_sqrt (div_nonneg energyFactor_pos.le he.le)]
-  field_simp
-
-/-- `E(λ) · λ² = ENERGY_FACTOR` -/
-theorem energy_mul_lambda_sq (w : ℝ) (hw : w ≠ 0) :
-    neutronEnergy w * (w * w) = PtGen.ENERGY_FACTOR := by
-  unfold neutronEnergy; field_simp
-
-/-- `v · λ(v) = VELOCITY_FACTOR` -/
-theorem v_mul_lambda (v : ℝ) (hv : v ≠ 0) :
-    v * neutronWavelengthFromVelocity v = PtGen.VELOCITY_FACTOR := by
-  unfold neutronWavelengthFromVelocity; field_simp
-
-/-- the wavelength is positive for a positive energy -/
-theorem neutronWavelength_pos (e : ℝ) (he : 0 < e) : 0 < neutronWavelength e := by
-  unfold neutronWavelength
-  exact Real.sqrt_pos.mpr (div_pos energyFactor_pos he)
-
-/-- energy → wavelength → energy is the identity -/
-theorem energy_wavelength_roundtrip (e : ℝ) (he : 0 < e) :
-    neutronEnergy (neutronWavelength e) = e := by
-  unfold neutronEnergy
-  have h := E_mul_lambda_sq e he
-  have hw := (neutronWavelength_pos e he).ne'
-  rw [← h]; field_simp
-
-/-- wavelength → energy → wavelength is the identity -/
-theorem wavelength_energy_roundtrip (w : ℝ) (hw : 0 < w) :
-    neutronWavelength (neutronEnergy w) = w := by
-  unfold neutronWavelength neutronEnergy
-  have hEF := energyFactor_pos
-  have : PtGen.ENERGY_FACTOR / (PtGen.ENERGY_FACTOR / (w * w)) = w * w := by field_simp
-  rw [this, sqrt_def, Real.sqrt_mul_self hw.le]
-
-/-! ### the documented anchor 1.798 Å = 2200 m/s = 25.3 meV, from the generated constants -/
-
-theorem anchor_wavelength_of_energy : |neutronWavelength (25.3 : ℝ) - 1.798| < 5e-4 := by
-  rw [abs_lt]
-  unfold neutronWavelength
-  rw [sqrt_def]
-  constructor
-  · have : (1.7975 : ℝ) < Real.sqrt (PtGen.ENERGY_FACTOR / 25.3) := by
-      rw [Real.lt_sqrt (by norm_num)]
-      unfold PtGen.ENERGY_FACTOR PtGen.plancks_constant PtGen.electron_volt PtGen.neutron_mass
-        PtGen.atomic_mass_constant
-      norm_num
-    linarith
-  · have : Real.sqrt (PtGen.ENERGY_FACTOR / 25.3) < (1.7985 : ℝ) := by
-      rw [Real.sqrt_lt' (by norm_num)]
-      unfold PtGen.ENERGY_FACTOR PtGen.plancks_constant PtGen.electron_volt PtGen.neutron_mass
-        PtGen.atomic_mass_constant
-      norm_num
-    linarith
-
-theorem anchor_wavelength_of_velocity : |neutronWavelengthFromVelocity (2200 : ℝ) - 1.798| < 5e-4 := by
-  rw [abs_lt]
-  unfold neutronWavelengthFromVelocity PtGen.VELOCITY_FACTOR PtGen.plancks_constant
-    PtGen.electron_volt PtGen.neutron_mass PtGen.atomic_mass_constant
-  constructor <;> norm_num
-
-theorem anchor_energy_of_wavelength : |neutronEnergy (1.798 : ℝ) - 25.3| < 1e-2 := by
-  rw [abs_lt]
-  unfold neutronEnergy PtGen.ENERGY_FACTOR PtGen.plancks_constant PtGen.electron_volt
-    PtGen.neutron_mass PtGen.atomic_mass_constant
-  constructor <;> norm_num
-
-/-- the absorption cross sections are tabulated at the anchor wavelength -/
-theorem anchor_absorption_wavelength : (PtGen.ABSORPTION_WAVELENGTH : ℝ) = 1.798 := by
-  unfold PtGen.ABSORPTION_WAVELENGTH; norm_num
-
-/-! ## C04: invariances of `neutron_scattering` -/
-
-/-- normal form of the result when every atom has data -/
-theorem neutronScattering_allData (t : Tbl ℝ) (atoms : List (Atom × ℝ)) (ρ w : ℝ)
-    (hd : AllData t atoms) :
-    neutronScattering t atoms ρ w = finish (accSums t w Acc.zero atoms) ρ w := by
-  unfold neutronScattering
-  rw [foldl_sumStep_allData t w atoms Acc.zero hd]
-
-theorem neutronScattering_missing (t : Tbl ℝ) (atoms : List (Atom × ℝ)) (ρ w : ℝ)
-    (hd : ¬ AllData t atoms) : neutronScattering t atoms ρ w = .missing :=
-  (missing_iff t atoms ρ w).mpr hd
-
-/-- every SLD and cross section times `k`, the penetration depth divided by `k` -/
-noncomputable def Scat.scale (k : ℝ) (s : Scat ℝ) : Scat ℝ :=
-  ⟨k * s.sldRe, k * s.sldIm, k * s.sldInc, k * s.coh, k * s.abs, k * s.inc, s.pen / k⟩
-
-noncomputable def Outcome.scale (k : ℝ) : Outcome ℝ → Outcome ℝ
-  | .missing => .missing
-  | .vacuum => .vacuum
-  | .ok s => .ok (Scat.scale k s)
-
-theorem calculateScattering_scale (k n w : ℝ) (b : Cx ℝ) (s : ℝ) (hk : 0 < k) :
-    calculateScattering (k * n) w b s = Scat.scale k (calculateScattering n w b s) := by
-  unfold calculateScattering Scat.scale
-  simp only [abs_def, sqrt_def, lit, Scat.mk.injEq]
-  have h1 : |(10:ℕ) * (k * n) * b.2| = k * |(10:ℕ) * n * b.2| := by
-    rw [show ((10:ℕ):ℝ) * (k * n) * b.2 = k * ((10:ℕ) * n * b.2) by ring, abs_mul, abs_of_pos hk]
-  refine ⟨by ring, h1, by ring, by ring, by ring, by ring, ?_⟩
-  rw [div_div]; congr 1; ring
-
-/-- **density scaling**: `ρ ↦ kρ` (k > 0) scales every SLD and cross section by `k` and the
-    penetration depth by `1/k` -/
-theorem scale_density (t : Tbl ℝ) (atoms : List (Atom × ℝ)) (ρ w k : ℝ) (hk : 0 < k) :
-    neutronScattering t atoms (k * ρ) w = Outcome.scale k (neutronScattering t atoms ρ w) := by
-  by_cases hd : AllData t atoms
-  · rw [neutronScattering_allData t atoms _ w hd, neutronScattering_allData t atoms _ w hd]
-    set a := accSums t w Acc.zero atoms
-    unfold finish
-    by_cases hz : a.molarMass * ρ = 0
-    · have hz' : a.molarMass * (k * ρ) = 0 := by rw [← mul_assoc, mul_comm a.molarMass k, mul_assoc, hz, mul_zero]
-      simp [hz, hz', Outcome.scale]
-    · have hz' : a.molarMass * (k * ρ) ≠ 0 := by
-        rw [← mul_assoc, mul_comm a.molarMass k, mul_assoc]; exact mul_ne_zero hk.ne' hz
-      have hm : a.molarMass ≠ 0 := left_ne_zero_of_mul hz
-      have hρ : ρ ≠ 0 := right_ne_zero_of_mul hz
-      simp only [beq_iff_eq, hz, hz', if_false, Outcome.scale, Outcome.ok.injEq]
-      rw [← calculateScattering_scale k _ w _ _ hk]
-      congr 1
-      unfold cellVolume
-      have := avogadro_pos.ne'
-      simp only [lit]; push_cast
-      field_simp
-  · rw [neutronScattering_missing t atoms _ w hd, neutronScattering_missing t atoms _ w hd]; rfl
-
-/-- all counts multiplied by `c` -/
-def scaleCounts (c : ℝ) (atoms : List (Atom × ℝ)) : List (Atom × ℝ) :=
-  atoms.map fun e => (e.1, c * e.2)
-
-theorem allData_scaleCounts (t : Tbl ℝ) (c : ℝ) (atoms : List (Atom × ℝ)) :
-    AllData t (scaleCounts c atoms) ↔ AllData t atoms := by
-  unfold AllData scaleCounts
-  simp only [List.mem_map, forall_exists_index, and_imp]
-  constructor
-  · intro h e he; exact h (e.1, c * e.2) e he rfl
-  · intro h e x hx hxe; subst hxe; exact h x hx
-
-theorem accSums_scaleCounts (t : Tbl ℝ) (w c : ℝ) (atoms : List (Atom × ℝ)) :
-    accSums t w Acc.zero (scaleCounts c atoms) =
-      ⟨c * (accSums t w Acc.zero atoms).molarMass, c * (accSums t w Acc.zero atoms).numAtoms,
-       (c * (accSums t w Acc.zero atoms).bc.1, c * (accSums t w Acc.zero atoms).bc.2),
-       c * (accSums t w Acc.zero atoms).sigS⟩ := by
-  simp only [accSums, Acc.zero, scaleCounts, List.map_map, zero_add, Acc.mk.injEq, Prod.mk.injEq]
-  refine ⟨?_, ?_, ⟨?_, ?_⟩, ?_⟩ <;>
-  · rw [← List.sum_map_mul_left]; congr 1
-    try (apply List.map_congr_left; intro e _; simp only [Function.comp]; try ring)
-
-/-- **cell size**: multiplying every count by `c ≠ 0` changes nothing (`Σ n ≠ 0` is stated so
-    that the claim does not rest on `x/0 = 0`) -/
-theorem scale_counts (t : Tbl ℝ) (atoms : List (Atom × ℝ)) (ρ w c : ℝ) (hc : c ≠ 0)
-    (_hn : Spec.count atoms ≠ 0) :
-    neutronScattering t (scaleCounts c atoms) ρ w = neutronScattering t atoms ρ w := by
-  by_cases hd : AllData t atoms
-  · rw [neutronScattering_allData t _ _ w ((allData_scaleCounts t c atoms).mpr hd),
-      neutronScattering_allData t atoms _ w hd, accSums_scaleCounts]
-    set a := accSums t w Acc.zero atoms
-    unfold finish
-    by_cases hz : a.molarMass * ρ = 0
-    · have hz' : c * a.molarMass * ρ = 0 := by rw [mul_assoc, hz, mul_zero]
-      simp [hz, hz']
-    · have hz' : c * a.molarMass * ρ ≠ 0 := by rw [mul_assoc]; exact mul_ne_zero hc hz
-      have hm : a.molarMass ≠ 0 := left_ne_zero_of_mul hz
-      have hρ : ρ ≠ 0 := right_ne_zero_of_mul hz
-      simp only [beq_iff_eq, hz, hz', if_false, Outcome.ok.injEq]
-      have hN : c * a.numAtoms / cellVolume (c * a.molarMass) ρ = a.numAtoms / cellVolume a.molarMass ρ := by
-        unfold cellVolume
-        have := avogadro_pos.ne'
-        simp only [lit]; push_cast
-        field_simp
-      have hb : Cx.divS (c * a.bc.1, c * a.bc.2) (c * a.numAtoms) = Cx.divS a.bc a.numAtoms := by
-        unfold Cx.divS
-        ext <;> simp only <;> rw [mul_div_mul_left _ _ hc]
-      rw [hN, hb, mul_div_mul_left _ _ hc]
-  · rw [neutronScattering_missing t _ _ w (fun h => hd ((allData_scaleCounts t c atoms).mp h)),
-      neutronScattering_missing t atoms _ w hd]
-
-theorem allData_perm (t : Tbl ℝ) {l₁ l₂ : List (Atom × ℝ)} (h : l₁.Perm l₂) :
-    AllData t l₁ ↔ AllData t l₂ := by
-  unfold AllData
-  constructor
-  · intro h1 e he; exact h1 e (h.mem_iff.mpr he)
-  · intro h1 e he; exact h1 e (h.mem_iff.mp he)
-
-theorem accSums_perm (t : Tbl ℝ) (w : ℝ) (a : Acc ℝ) {l₁ l₂ : List (Atom × ℝ)} (h : l₁.Perm l₂) :
-    accSums t w a l₁ = accSums t w a l₂ := by
-  unfold accSums
-  rw [(h.map _).sum_eq, (h.map (fun e => e.2)).sum_eq,
-    (h.map (fun e => e.2 * (pa t w e.1).1.1)).sum_eq,
-    (h.map (fun e => e.2 * (pa t w e.1).1.2)).sum_eq,
-    (h.map (fun e => e.2 * (pa t w e.1).2)).sum_eq]
-
-/-- **reordering**: any permutation of the atoms gives the same result -/
-theorem perm_invariant (t : Tbl ℝ) {l₁ l₂ : List (Atom × ℝ)} (h : l₁.Perm l₂) (ρ w : ℝ) :
-    neutronScattering t l₁ ρ w = neutronScattering t l₂ ρ w := by
-  by_cases hd : AllData t l₁
-  · rw [neutronScattering_allData t l₁ _ w hd,
-      neutronScattering_allData t l₂ _ w ((allData_perm t h).mp hd), accSums_perm t w _ h]
-  · rw [neutronScattering_missing t l₁ _ w hd,
-      neutronScattering_missing t l₂ _ w (fun h2 => hd ((allData_perm t h).mpr h2))]
-
-/-! ### regrouping: the result depends on the formula only through its atom counts -/
-
-theorem mem_of_lookupD {l : List (Atom × ℝ)} {a : Atom} {n : ℝ}
-    (h : lookupD l a = n) (hn : n ≠ 0) : (a, n) ∈ l := by
-  induction l with
-  | nil => simp [lookupD] at h; exact absurd h.symm hn
-  | cons e r ih =>
-    obtain ⟨b, y⟩ := e
-    simp only [lookupD] at h
-    by_cases hb : b = a
-    · simp only [hb, if_true] at h; subst h; subst hb; simp
-    · simp only [hb, if_false] at h; exact List.mem_cons_of_mem _ (ih h)
-
-theorem lookupD_of_mem {l : List (Atom × ℝ)} (hk : KeysNodup l) {a : Atom} {n : ℝ}
-    (h : (a, n) ∈ l) : lookupD l a = n := by
-  induction l with
-  | nil => simp at h
-  | cons e r ih =>
-    obtain ⟨b, y⟩ := e
-    have hk' : KeysNodup r := by
-      unfold KeysNodup at hk ⊢; simp only [List.map_cons, List.nodup_cons] at hk; exact hk.2
-    rcases List.mem_cons.mp h with h | h
-    · cases h; simp [lookupD]
-    · have hne : b ≠ a := by
-        intro hba; subst hba
-        unfold KeysNodup at hk; simp only [List.map_cons, List.nodup_cons] at hk
-        exact hk.1 (List.mem_map_of_mem (f := Prod.fst) h)
-      simp only [lookupD, hne, if_false]; exact ih hk' h
-
-theorem nodup_of_keysNodup {l : List (Atom × ℝ)} (hk : KeysNodup l) : l.Nodup :=
-  List.Nodup.of_map Prod.fst hk
-
-/-- two atom dicts with the same (non-zero) counts are permutations of each other -/
-theorem perm_of_same_counts {l₁ l₂ : List (Atom × ℝ)} (h1 : KeysNodup l₁) (h2 : KeysNodup l₂)
-    (hnz1 : ∀ e ∈ l₁, e.2 ≠ 0) (hnz2 : ∀ e ∈ l₂, e.2 ≠ 0)
-    (hc : ∀ a, lookupD l₁ a = lookupD l₂ a) : l₁.Perm l₂ := by
-  apply (List.perm_ext_iff_of_nodup (nodup_of_keysNodup h1) (nodup_of_keysNodup h2)).mpr
-  rintro ⟨a, n⟩
-  constructor
-  · intro h
-    have := lookupD_of_mem h1 h
-    exact mem_of_lookupD ((hc a).symm.trans this) (hnz1 _ h)
-  · intro h
-    have := lookupD_of_mem h2 h
-    exact mem_of_lookupD ((hc a).trans this) (hnz2 _ h)
-
-/-- **regrouping**: two formula structures – any nesting, any grouping, any order – in which
-    every atom has the same total count give the same result -/
-theorem regroup_invariant (t : Tbl ℝ) (s₁ s₂ : Items ℝ) (ρ w : ℝ)
-    (hc : ∀ a, s₁.cnt a = s₂.cnt a)
-    (hnz1 : ∀ e ∈ s₁.atoms, e.2 ≠ 0) (hnz2 : ∀ e ∈ s₂.atoms, e.2 ≠ 0) :
-    neutronScattering t s₁.atoms ρ w = neutronScattering t s₂.atoms ρ w := by
-  apply perm_invariant
-  apply perm_of_same_counts
-  · exact Items.keysNodup_countAcc s₁ (by simp [KeysNodup])
-  · exact Items.keysNodup_countAcc s₂ (by simp [KeysNodup])
-  · exact hnz1
-  · exact hnz2
-  · intro a; rw [Items.atoms_lookup, Items.atoms_lookup]; exact hc a
-
-/-! ### vector of wavelengths -/
-
-theorem any_missing_iff (t : Tbl ℝ) (atoms : List (Atom × ℝ)) :
-    atoms.any (fun e => (t.neutron e.1).isNone) = true ↔ ¬ AllData t atoms := by
-  unfold AllData
-  simp only [List.any_eq_true, Option.isNone_iff_eq_none]
-  constructor
-  · rintro ⟨e, he, hn⟩ h; have := h e he; simp [hn] at this
-  · intro h; by_contra hc; apply h; intro e he
-    cases hn : t.neutron e.1 with
-    | none => exact absurd ⟨e, he, hn⟩ hc
-    | some r => rfl
-
-theorem sumsAt_go_allData (t : Tbl ℝ) (w : ℝ) (l : List (Atom × ℝ)) (a : Acc ℝ) (h : AllData t l) :
-    l.foldl (sumsStep t w) a = accSums t w a l := by
-  induction l generalizing a with
-  | nil => simp [accSums]
-  | cons e r ih =>
-    have he : (t.neutron e.1).isSome = true := h e (by simp)
-    obtain ⟨rec, hrec⟩ := Option.isSome_iff_exists.mp he
-    have hr : AllData t r := fun x hx => h x (by simp [hx])
-    simp only [List.foldl, sumsStep, hrec]
-    rw [ih _ hr]
-    simp only [accSums, pa, hrec, Cx.add, Cx.smul, List.map_cons, List.sum_cons,
-      Acc.mk.injEq, Prod.mk.injEq]
-    refine ⟨?_, ?_, ⟨?_, ?_⟩, ?_⟩ <;> ring
-
-theorem sumsAt_allData (t : Tbl ℝ) (w : ℝ) (l : List (Atom × ℝ)) (h : AllData t l) :
-    sumsAt t w l = accSums t w Acc.zero l := by
-  unfold sumsAt; exact sumsAt_go_allData t w l Acc.zero h
-
-theorem molarMassOf_eq (t : Tbl ℝ) (l : List (Atom × ℝ)) :
-    molarMassOf t l = (l.map fun e => t.atomMass e.1 * e.2).sum := by
-  unfold molarMassOf
-  have : ∀ (s0 : ℝ), l.foldl (fun s e => s + t.atomMass e.1 * e.2) s0
-      = s0 + (l.map fun e => t.atomMass e.1 * e.2).sum := by
-    induction l with
-    | nil => intro s0; simp
-    | cons e r ih => intro s0; simp only [List.foldl, List.map_cons, List.sum_cons]; rw [ih]; ring
-  rw [this]; simp
-
-/-- **vector of wavelengths**: the `i`-th entry of the vector call is the scalar call at the
-    `i`-th wavelength (a missing-data or vacuum result is the same for every entry) -/
-theorem vector_is_map (t : Tbl ℝ) (atoms : List (Atom × ℝ)) (ρ : ℝ) (ws : List ℝ) (i : Nat)
-    (hi : i < ws.length) :
-    (neutronScatteringV t atoms ρ ws).get? i = some (neutronScattering t atoms ρ ws[i]) := by
-  unfold neutronScatteringV
-  by_cases hd : AllData t atoms
-  · have hany : atoms.any (fun e => (t.neutron e.1).isNone) = false := by
-      rw [Bool.eq_false_iff]; exact fun h => (any_missing_iff t atoms).mp h hd
-    rw [neutronScattering_allData t atoms ρ _ hd]
-    have hmm : (accSums t ws[i] Acc.zero atoms).molarMass = molarMassOf t atoms := by
-      rw [molarMassOf_eq]; simp [accSums, Acc.zero]
-    simp only [hany, Bool.false_eq_true, if_false, finish, hmm]
-    by_cases hz : molarMassOf t atoms * ρ = 0
-    · simp [hz, OutcomeV.get?]
-    · simp only [beq_iff_eq, hz, if_false, OutcomeV.get?, List.getElem?_map,
-        List.getElem?_eq_getElem hi, Option.map_some, Option.some.injEq, Outcome.ok.injEq]
-      unfold entryAt
-      rw [sumsAt_allData t _ atoms hd]
-      simp only [hmm]
-  · have hany : atoms.any (fun e => (t.neutron e.1).isNone) = true := (any_missing_iff t atoms).mpr hd
-    rw [neutronScattering_missing t atoms ρ _ hd]
-    simp [hany, OutcomeV.get?]
-
-/-- the vector result has one entry per wavelength -/
-theorem vector_length (t : Tbl ℝ) (atoms : List (Atom × ℝ)) (ρ : ℝ) (ws : List ℝ) (l : List (Scat ℝ))
-    (h : neutronScatteringV t atoms ρ ws = .ok l) : l.length = ws.length := by
-  unfold neutronScatteringV at h
-  split at h
-  · cases h
-  · split at h
-    · cases h
-    · cases h; simp
-
-/-! ### non-negativity -/
-
-theorem calculateScattering_nonneg (n w : ℝ) (b : Cx ℝ) (s : ℝ) (hn : 0 ≤ n) (hw : 0 ≤ w) :
-    let r := calculateScattering n w b s
-    0 ≤ r.sldIm ∧ 0 ≤ r.sldInc ∧ 0 ≤ r.coh ∧ 0 ≤ r.abs ∧ 0 ≤ r.inc := by
-  simp only [calculateScattering, abs_def, sqrt_def, lit]
-  have hc := fourPi100_pos
-  have h1 : 0 ≤ cabs b * cabs b := mul_self_nonneg _
-  have h2 := maxZero_nonneg (s - fourPi100 * (cabs b * cabs b))
-  refine ⟨abs_nonneg _, ?_, ?_, ?_, ?_⟩
-  · have := Real.sqrt_nonneg (maxZero (s - fourPi100 * (cabs b * cabs b)) / fourPi100)
-    positivity
-  · positivity
-  · have := abs_nonneg b.2; positivity
-  · positivity
-
-theorem calculateScattering_pen_pos (n w : ℝ) (b : Cx ℝ) (s : ℝ) (hn : 0 < n) (hw : 0 ≤ w)
-    (hs : 0 < s) : 0 < (calculateScattering n w b s).pen := by
-  simp only [calculateScattering, abs_def, lit]
-  have := abs_nonneg b.2
-  have h1 : 0 ≤ n * ((2000:ℕ) * |b.2| * w) := by positivity
-  have h2 : 0 < n * s := mul_pos hn hs
-  positivity
-
-/-- every atom's total cross section at this wavelength is positive -/
-def TotalPos (t : Tbl ℝ) (w : ℝ) (atoms : List (Atom × ℝ)) : Prop :=
-  ∀ e ∈ atoms, 0 < (pa t w e.1).2
-
-/-- **non-negativity**: for a physical input (N > 0, λ > 0) whose atoms have positive total cross
-    sections, imaginary and incoherent SLD and the three cross sections are ≥ 0 and the
-    penetration depth is > 0.  The guard is stated: the result is an `ok` computed from a
-    strictly positive number density and total cross section, not a by-product of `1/0 = 0`. -/
-theorem nonneg (t : Tbl ℝ) (atoms : List (Atom × ℝ)) (ρ w : ℝ)
-    (hd : AllData t atoms) (h : Physical t atoms ρ w) (hs : TotalPos t w atoms) :
-    ∃ s, neutronScattering t atoms ρ w = .ok s ∧
-      0 ≤ s.sldIm ∧ 0 ≤ s.sldInc ∧ 0 ≤ s.coh ∧ 0 ≤ s.abs ∧ 0 ≤ s.inc ∧ 0 < s.pen := by
-  rw [neutronScattering_allData t atoms ρ w hd]
-  have hmm : (accSums t w Acc.zero atoms).molarMass = Spec.molarMass t atoms := by
-    simp [accSums, Acc.zero, molarMass_spec]
-  have hna : (accSums t w Acc.zero atoms).numAtoms = Spec.count atoms := by
-    simp [accSums, Acc.zero, count_spec]
-  have hv : Spec.molarMass t atoms * ρ ≠ 0 := mul_ne_zero h.molarMass_pos.ne' h.density.ne'
-  simp only [finish, hmm, hna, beq_iff_eq, hv, if_false]
-  have hNN : Spec.count atoms / cellVolume (Spec.molarMass t atoms) ρ
-      = Spec.numberDensity t atoms ρ := by
-    unfold Spec.numberDensity Spec.cellVolume cellVolume
-    simp only [lit]; push_cast; ring
-  rw [hNN]
-  have hN := h.numberDensity_pos
-  have hsig : 0 < (accSums t w Acc.zero atoms).sigS / Spec.count atoms := by
-    apply div_pos _ h.count_pos
-    simp only [accSums, Acc.zero, zero_add]
-    exact map_sum_pos _ _ h.nonempty (fun e he => mul_pos (h.counts e he) (hs e he))
-  refine ⟨_, rfl, ?_⟩
-  obtain ⟨a1, a2, a3, a4, a5⟩ := calculateScattering_nonneg (Spec.numberDensity t atoms ρ) w
-    (Cx.divS (accSums t w Acc.zero atoms).bc (Spec.count atoms))
-    ((accSums t w Acc.zero atoms).sigS / Spec.count atoms) hN.le h.wavelength.le
-  exact ⟨a1, a2, a3, a4, a5,
-    calculateScattering_pen_pos _ _ _ _ hN h.wavelength.le hsig⟩
-
-/-! ## C17: the composite calculator -/
-
-/-! ### which atoms occur in a structure, and the keys of its atom dict -/
-
-mutual
-def fragOccurs (a : Atom) : Frag ℝ → Prop
-  | .atom b => b = a
-  | .group is => itemsOccurs a is
-def itemsOccurs (a : Atom) : Items ℝ → Prop
-  | .nil => False
-  | .cons _ f r => fragOccurs a f ∨ itemsOccurs a r
-end
-
-theorem mem_keys_bump (t : List (Atom × ℝ)) (b : Atom) (x : ℝ) (a : Atom) :
-    a ∈ (bump t b x).map Prod.fst ↔ a ∈ t.map Prod.fst ∨ a = b := by
-  rw [keys_bump]
-  split
-  · rename_i h
-    constructor
-    · intro h'; exact Or.inl h'
-    · rintro (h' | h'); exact h'; subst h'; exact h
-  · simp
-
-theorem mem_keys_mergeScaled (t p : List (Atom × ℝ)) (c : ℝ) (a : Atom) :
-    a ∈ (mergeScaled t p c).map Prod.fst ↔ a ∈ t.map Prod.fst ∨ a ∈ p.map Prod.fst := by
-  unfold mergeScaled
-  induction p generalizing t with
-  | nil => simp
-  | cons e r ih =>
-    simp only [List.foldl_cons, List.map_cons, List.mem_cons]
-    rw [ih, mem_keys_bump]
-    constructor
-    · rintro ((h | h) | h)
-      · exact Or.inl h
-      · exact Or.inr (Or.inl h)
-      · exact Or.inr (Or.inr h)
-    · rintro (h | h | h)
-      · exact Or.inl (Or.inl h)
-      · exact Or.inl (Or.inr h)
-      · exact Or.inr h
-
-mutual
-theorem mem_keys_fragCount (f : Frag ℝ) (a : Atom) :
-    a ∈ f.count.map Prod.fst ↔ fragOccurs a f := by
-  cases f with
-  | atom b => simp [Frag.count, fragOccurs, eq_comm]
-  | group is =>
-    simp only [Frag.count, fragOccurs]
-    rw [mem_keys_countAcc]; simp
-theorem mem_keys_countAcc (s : Items ℝ) (t : List (Atom × ℝ)) (a : Atom) :
-    a ∈ (s.countAcc t).map Prod.fst ↔ a ∈ t.map Prod.fst ∨ itemsOccurs a s := by
-  cases s with
-  | nil => simp [Items.countAcc, itemsOccurs]
-  | cons c f r =>
-    simp only [Items.countAcc, itemsOccurs]
-    rw [mem_keys_countAcc, mem_keys_mergeScaled, mem_keys_fragCount]
-    tauto
-end
-
-theorem mem_keys_atoms (s : Items ℝ) (a : Atom) :
-    a ∈ s.atoms.map Prod.fst ↔ itemsOccurs a s := by
-  unfold Items.atoms; rw [mem_keys_countAcc]; simp
-
-theorem allData_atoms_iff (t : Tbl ℝ) (s : Items ℝ) :
-    AllData t s.atoms ↔ ∀ a, itemsOccurs a s → (t.neutron a).isSome = true := by
-  unfold AllData
-  constructor
-  · intro h a ha
-    obtain ⟨e, he, hea⟩ := List.mem_map.mp ((mem_keys_atoms s a).mpr ha)
-    subst hea; exact h e he
-  · intro h e he
-    exact h e.1 ((mem_keys_atoms s e.1).mp (List.mem_map_of_mem he))
-
-theorem itemsOccurs_append (s u : Items ℝ) (a : Atom) :
-    itemsOccurs a (s.append u) ↔ itemsOccurs a s ∨ itemsOccurs a u := by
-  match s with
-  | .nil => simp [Items.append, itemsOccurs]
-  | .cons c f r =>
-    simp only [Items.append, itemsOccurs]
-    rw [itemsOccurs_append r u a]; tauto
-
-theorem itemsOccurs_rmulS (n : ℝ) (s : Items ℝ) (a : Atom) :
-    itemsOccurs a (rmulS n s) ↔ itemsOccurs a s := by
-  unfold rmulS
-  by_cases h : (n == 1) = true
-  · simp [h]
-  · simp only [h, Bool.false_eq_true, if_false]
-    match s with
-    | .nil => simp
-    | .cons q f .nil => simp [itemsOccurs]
-    | .cons q f (.cons q' f' r) => simp [itemsOccurs, fragOccurs]
-
-/-- the formula `Σ wᵢ·mᵢ` as Python builds it: `__rmul__` for each product, `__add__` to join -/
-noncomputable def weighted : List ℝ → List (Items ℝ) → Items ℝ
-  | w :: ws, m :: ms => addS (rmulS w m) (weighted ws ms)
-  | _, _ => .nil
-
-theorem itemsOccurs_weighted (ws : List ℝ) (ms : List (Items ℝ)) (h : ws.length = ms.length)
-    (a : Atom) : itemsOccurs a (weighted ws ms) ↔ ∃ m ∈ ms, itemsOccurs a m := by
-  induction ws generalizing ms with
-  | nil =>
-    cases ms with
-    | nil => simp [weighted, itemsOccurs]
-    | cons m r => simp at h
-  | cons w r ih =>
-    cases ms with
-    | nil => simp at h
-    | cons m r' =>
-      simp only [weighted, addS, itemsOccurs_append, itemsOccurs_rmulS, List.mem_cons,
-        exists_eq_or_imp]
-      rw [ih r' (by simpa using h)]
-
-theorem flatMass_weighted (f : Atom → ℝ) (ws : List ℝ) (ms : List (Items ℝ)) :
-    (weighted ws ms).flatMass f = (List.zipWith (fun w m => w * m.flatMass f) ws ms).sum := by
-  induction ws generalizing ms with
-  | nil => cases ms <;> simp [weighted, Items.flatMass]
-  | cons w r ih =>
-    cases ms with
-    | nil => simp [weighted, Items.flatMass]
-    | cons m r' =>
-      simp only [weighted, addS, Items.flatMass_append, flatMass_rmulS, List.zipWith_cons_cons,
-        List.sum_cons, ih]
-      ring
-
-theorem wsum_atoms (f : Atom → ℝ) (s : Items ℝ) : wsum f s.atoms = s.flatMass f := by
-  rw [← massOf_eq_wsum]; exact Items.mass_eq_flat f s
-
-/-! ### the precomputed pieces -/
-
-theorem sumPiece_go_allData (t : Tbl ℝ) (w : ℝ) (l : List (Atom × ℝ)) (a : Acc ℝ)
-    (h : AllData t l) : l.foldl (pieceStep t w) (some a) = some (accSums t w a l) := by
-  induction l generalizing a with
-  | nil => simp [accSums]
-  | cons e r ih =>
-    have he : (t.neutron e.1).isSome = true := h e (by simp)
-    obtain ⟨rec, hrec⟩ := Option.isSome_iff_exists.mp he
-    have hr : AllData t r := fun x hx => h x (by simp [hx])
-    simp only [List.foldl, pieceStep, hrec]
-    rw [ih _ hr]
-    simp only [accSums, pa, hrec, Cx.add, Cx.smul, List.map_cons, List.sum_cons, Option.some.injEq,
-      Acc.mk.injEq, Prod.mk.injEq]
-    refine ⟨?_, ?_, ⟨?_, ?_⟩, ?_⟩ <;> ring
-
-theorem sumPiece_allData (t : Tbl ℝ) (w : ℝ) (l : List (Atom × ℝ)) (h : AllData t l) :
-    sumPiece t w l = some (accSums t w Acc.zero l) := sumPiece_go_allData t w l Acc.zero h
-
-theorem foldl_pieceStep_none (t : Tbl ℝ) (w : ℝ) (l : List (Atom × ℝ)) :
-    l.foldl (pieceStep t w) none = none := by
-  induction l with
-  | nil => rfl
-  | cons e r ih => simpa [List.foldl, pieceStep] using ih
-
-theorem sumPiece_go_missing (t : Tbl ℝ) (w : ℝ) (l : List (Atom × ℝ)) (a : Option (Acc ℝ))
-    (h : ¬ AllData t l) : l.foldl (pieceStep t w) a = none := by
-  induction l generalizing a with
-  | nil => exact absurd (fun e he => by simp at he) h
-  | cons e r ih =>
-    by_cases he : (t.neutron e.1).isSome = true
-    · have hr : ¬ AllData t r := by
-        intro hr; apply h; intro x hx
-        rcases List.mem_cons.mp hx with rfl | hx
-        · exact he
-        · exact hr x hx
-      simp only [List.foldl]; exact ih _ hr
-    · have : t.neutron e.1 = none := by
-        cases hn : t.neutron e.1 with
-        | none => rfl
-        | some v => simp [hn] at he
-      simp only [List.foldl]
-      have : pieceStep t w a e = none := by
-        unfold pieceStep; cases a <;> simp [this]
-      rw [this]; exact foldl_pieceStep_none t w r
-
-theorem sumPiece_missing (t : Tbl ℝ) (w : ℝ) (l : List (Atom × ℝ)) (h : ¬ AllData t l) :
-    sumPiece t w l = none := sumPiece_go_missing t w l _ h
-
-theorem mapM_sumPiece_allData (t : Tbl ℝ) (w : ℝ) (ls : List (List (Atom × ℝ)))
-    (h : ∀ l ∈ ls, AllData t l) :
-    ls.mapM (sumPiece t w) = some (ls.map fun l => accSums t w Acc.zero l) := by
-  induction ls with
-  | nil => rfl
-  | cons l r ih =>
-    rw [List.mapM_cons, sumPiece_allData t w l (h l (by simp)), ih (fun x hx => h x (by simp [hx]))]
-    rfl
-
-theorem mapM_sumPiece_missing (t : Tbl ℝ) (w : ℝ) (ls : List (List (Atom × ℝ)))
-    (h : ∃ l ∈ ls, ¬ AllData t l) : ls.mapM (sumPiece t w) = none := by
-  induction ls with
-  | nil => obtain ⟨l, hl, _⟩ := h; simp at hl
-  | cons l r ih =>
-    rw [List.mapM_cons]
-    by_cases hl : AllData t l
-    · have : ∃ l ∈ r, ¬ AllData t l := by
-        obtain ⟨x, hx, hnx⟩ := h
-        rcases List.mem_cons.mp hx with rfl | hx
-        · exact absurd hl hnx
-        · exact ⟨x, hx, hnx⟩
-      rw [ih this, sumPiece_allData t w l hl]; rfl
-    · rw [sumPiece_missing t w l hl]; rfl
-
-/-! ### the calculator equals the direct calculation -/
-
-/-- what the calculator reports for a direct result: the three SLDs, zeros for the vacuum,
-    `(None, None, None)` for missing data -/
-noncomputable def compOf : Outcome ℝ → CompOut ℝ
-  | .ok s => .ok s.sldRe s.sldIm s.sldInc
-  | .vacuum => .zeros
-  | .missing => .missing
-
-theorem foldl_add_eq_sum (l : List ℝ) (s0 : ℝ) : l.foldl (· + ·) s0 = s0 + l.sum := by
-  induction l generalizing s0 with
-  | nil => simp
-  | cons x r ih => simp only [List.foldl_cons, List.sum_cons, ih]; ring
-
-theorem dotSum_eq (ws ps : List ℝ) : dotSum ws ps = (List.zipWith (· * ·) ws ps).sum := by
-  unfold dotSum; rw [foldl_add_eq_sum]; simp
-
-theorem dotSumC_eq (ws : List ℝ) (ps : List (Cx ℝ)) :
-    dotSumC ws ps = (dotSum ws (ps.map Prod.fst), dotSum ws (ps.map Prod.snd)) := by
-  unfold dotSumC
-  rw [dotSum_eq, dotSum_eq]
-  have : ∀ (z : Cx ℝ), (List.zipWith Cx.smul ws ps).foldl Cx.add z
-      = (z.1 + (List.zipWith (· * ·) ws (ps.map Prod.fst)).sum,
-         z.2 + (List.zipWith (· * ·) ws (ps.map Prod.snd)).sum) := by
-    induction ws generalizing ps with
-    | nil => intro z; simp
-    | cons x r ih =>
-      intro z
-      cases ps with
-      | nil => simp
-      | cons y r' =>
-        simp only [List.zipWith_cons_cons, List.foldl_cons, List.map_cons, List.sum_cons]
-        rw [ih]; simp only [Cx.add, Cx.smul]; ext <;> simp <;> ring
-  rw [this]; simp
-
-/-- `Σᵢ wᵢ · (Σ over mᵢ of n·f)` is the sum over the combined formula -/
-theorem dotSum_wsum (f : Atom → ℝ) (ws : List ℝ) (ms : List (Items ℝ)) :
-    dotSum ws (ms.map fun m => wsum f m.atoms) = wsum f (weighted ws ms).atoms := by
-  rw [dotSum_eq, wsum_atoms, flatMass_weighted]
-  have : (ms.map fun m => wsum f m.atoms) = ms.map fun m => m.flatMass f := by
-    apply List.map_congr_left; intro m _; exact wsum_atoms f m
-  rw [this, List.zipWith_map_right]
-
-theorem accSums_zero_eq_wsum (t : Tbl ℝ) (w : ℝ) (l : List (Atom × ℝ)) :
-    accSums t w Acc.zero l =
-      ⟨wsum t.atomMass l, wsum (fun _ => 1) l,
-       (wsum (fun a => (pa t w a).1.1) l, wsum (fun a => (pa t w a).1.2) l),
-       wsum (fun a => (pa t w a).2) l⟩ := by
-  have hb1 : (l.map fun e => e.2 * (pa t w e.1).1.1).sum = (l.map fun e => (pa t w e.1).1.1 * e.2).sum := by
-    congr 1; apply List.map_congr_left; intro e _; ring
-  have hb2 : (l.map fun e => e.2 * (pa t w e.1).1.2).sum = (l.map fun e => (pa t w e.1).1.2 * e.2).sum := by
-    congr 1; apply List.map_congr_left; intro e _; ring
-  have hs : (l.map fun e => e.2 * (pa t w e.1).2).sum = (l.map fun e => (pa t w e.1).2 * e.2).sum := by
-    congr 1; apply List.map_congr_left; intro e _; ring
-  simp only [accSums, Acc.zero, wsum, zero_add, one_mul, hb1, hb2, hs]
-
-theorem compositeCompute_eq (parts : List (Acc ℝ)) (ws : List ℝ) (ρ w : ℝ) (A : Acc ℝ)
-    (h1 : dotSum ws (parts.map (·.molarMass)) = A.molarMass)
-    (h2 : dotSum ws (parts.map (·.numAtoms)) = A.numAtoms)
-    (h3 : dotSumC ws (parts.map (·.bc)) = A.bc)
-    (h4 : dotSum ws (parts.map (·.sigS)) = A.sigS) :
-    compositeCompute parts ws ρ = compOf (finish A ρ w) := by
-  unfold compositeCompute finish
-  simp only [h1, h2, h3, h4]
-  by_cases hz : A.molarMass * ρ = 0
-  · simp [hz, compOf]
-  · simp only [beq_iff_eq, hz, if_false, compOf, calculateScattering, cellVolume]
-
-theorem allData_weighted (t : Tbl ℝ) (ms : List (Items ℝ)) (ws : List ℝ)
-    (hlen : ws.length = ms.length) :
-    AllData t (weighted ws ms).atoms ↔ ∀ m ∈ ms, AllData t m.atoms := by
-  constructor
-  · intro hW m hm
-    rw [allData_atoms_iff] at hW ⊢
-    intro a ha
-    exact hW a ((itemsOccurs_weighted ws ms hlen a).mpr ⟨m, hm, ha⟩)
-  · intro hd
-    rw [allData_atoms_iff]
-    intro a ha
-    obtain ⟨m, hm, hma⟩ := (itemsOccurs_weighted ws ms hlen a).mp ha
-    exact (allData_atoms_iff t m).mp (hd m hm) a hma
-
-/-- **C17**: the calculator built from the materials and applied to weights `ws` and density `ρ`
-    returns the real, imaginary and incoherent SLD of the direct calculation on the formula
-    `Σ wᵢ·mᵢ`: `0, 0, 0` where the direct calculation returns the vacuum tuple and
-    `(None, None, None)` where it does (some material contains an atom without SLD) -/
-theorem composite_eq_direct (t : Tbl ℝ) (ms : List (Items ℝ)) (ws : List ℝ) (ρ w : ℝ)
-    (hlen : ws.length = ms.length) :
-    compositeSld t (ms.map Items.atoms) w ws ρ
-      = compOf (neutronScattering t (weighted ws ms).atoms ρ w) := by
-  by_cases hd : ∀ m ∈ ms, AllData t m.atoms
-  · have hW : AllData t (weighted ws ms).atoms := (allData_weighted t ms ws hlen).mpr hd
-    unfold compositeSld
-    rw [mapM_sumPiece_allData t w _ (by
-      intro l hl; obtain ⟨m, hm, rfl⟩ := List.mem_map.mp hl; exact hd m hm)]
-    rw [neutronScattering_allData t _ ρ w hW]
-    simp only [List.map_map]
-    have hproj : ∀ (g : Acc ℝ → ℝ) (f : Atom → ℝ), (∀ l, g (accSums t w Acc.zero l) = wsum f l) →
-        dotSum ws ((ms.map ((fun l => accSums t w Acc.zero l) ∘ Items.atoms)).map g)
-          = g (accSums t w Acc.zero (weighted ws ms).atoms) := by
-      intro g f hg
-      rw [hg, ← dotSum_wsum, List.map_map]
-      congr 1; apply List.map_congr_left; intro m _; simp [hg]
-    apply compositeCompute_eq
-    · exact hproj (·.molarMass) t.atomMass (fun l => by rw [accSums_zero_eq_wsum])
-    · exact hproj (·.numAtoms) (fun _ => 1) (fun l => by rw [accSums_zero_eq_wsum])
-    · rw [dotSumC_eq]
-      have h1 := hproj (fun a => a.bc.1) (fun a => (pa t w a).1.1) (fun l => by rw [accSums_zero_eq_wsum])
-      have h2 := hproj (fun a => a.bc.2) (fun a => (pa t w a).1.2) (fun l => by rw [accSums_zero_eq_wsum])
-      ext
-      · simpa [List.map_map, Function.comp_def] using h1
-      · simpa [List.map_map, Function.comp_def] using h2
-    · exact hproj (·.sigS) (fun a => (pa t w a).2) (fun l => by rw [accSums_zero_eq_wsum])
-  · have hex : ∃ l ∈ ms.map Items.atoms, ¬ AllData t l := by
-      by_contra hc
-      apply hd; intro m hm
-      by_contra hm'
-      exact hc ⟨m.atoms, List.mem_map_of_mem hm, hm'⟩
-    have hW : ¬ AllData t (weighted ws ms).atoms :=
-      fun hW => hd ((allData_weighted t ms ws hlen).mp hW)
-    unfold compositeSld
-    rw [mapM_sumPiece_missing t w _ hex, neutronScattering_missing t _ ρ w hW]
-    rfl
-
-/-- **zeros**: zero total weight (all weights 0) or zero density gives `0, 0, 0`, like the
-    direct calculation's vacuum tuple -/
-theorem zero_gives_zeros (t : Tbl ℝ) (ms : List (Items ℝ)) (ws : List ℝ) (ρ w : ℝ)
-    (hlen : ws.length = ms.length) (hd : ∀ m ∈ ms, AllData t m.atoms)
-    (hz : ρ = 0 ∨ ∀ x ∈ ws, x = 0) :
-    compositeSld t (ms.map Items.atoms) w ws ρ = .zeros ∧
-      neutronSld t (weighted ws ms).atoms ρ w = some (0, 0, 0) := by
-  have hW : AllData t (weighted ws ms).atoms := (allData_weighted t ms ws hlen).mpr hd
-  have hvac : neutronScattering t (weighted ws ms).atoms ρ w = .vacuum := by
-    rw [vacuum_iff t _ ρ w hW]
-    rcases hz with hz | hz
-    · rw [hz, mul_zero]
-    · have : Spec.molarMass t (weighted ws ms).atoms = 0 := by
-        rw [← molarMass_spec]
-        have := wsum_atoms t.atomMass (weighted ws ms)
-        unfold wsum at this; rw [this, flatMass_weighted]
-        have hall : ∀ y ∈ List.zipWith (fun w m => w * Items.flatMass t.atomMass m) ws ms, y = 0 := by
-          intro y hy
-          obtain ⟨i, hi, rfl⟩ := List.mem_iff_getElem.mp hy
-          simp only [List.getElem_zipWith]
-          rw [hz _ (List.getElem_mem _)]; ring
-        exact List.sum_eq_zero hall
-      rw [this, zero_mul]
-  refine ⟨?_, ?_⟩
-  · rw [composite_eq_direct t ms ws ρ w hlen, hvac]; rfl
-  · unfold neutronSld; rw [hvac]; rfl
-
-/-! ### vector wavelength for the calculator -/
-
-theorem any_any_missing_iff (t : Tbl ℝ) (mats : List (List (Atom × ℝ))) :
-    mats.any (fun m => m.any fun e => (t.neutron e.1).isNone) = true ↔ ∃ l ∈ mats, ¬ AllData t l := by
-  simp only [List.any_eq_true]
-  constructor
-  · rintro ⟨m, hm, h⟩
-    exact ⟨m, hm, (any_missing_iff t m).mp (by simpa [List.any_eq_true] using h)⟩
-  · rintro ⟨m, hm, h⟩
-    exact ⟨m, hm, by simpa [List.any_eq_true] using (any_missing_iff t m).mpr h⟩
-
-theorem compositeCompute_ok_of_nonzero (parts : List (Acc ℝ)) (ws : List ℝ) (ρ : ℝ)
-    (h : dotSum ws (parts.map (·.molarMass)) * ρ ≠ 0) :
-    ∃ a b c, compositeCompute parts ws ρ = .ok a b c := by
-  unfold compositeCompute
-  simp only [beq_iff_eq, h, if_false]
-  exact ⟨_, _, _, rfl⟩
-
-theorem compositeCompute_zero (parts : List (Acc ℝ)) (ws : List ℝ) (ρ : ℝ)
-    (h : dotSum ws (parts.map (·.molarMass)) * ρ = 0) :
-    compositeCompute parts ws ρ = .zeros := by
-  unfold compositeCompute
-  simp [h]
-
-/-- **vector wavelength**: the `i`-th entry of the calculator built for a wavelength vector is the
-    calculator built for the `i`-th wavelength; the result has one entry per wavelength -/
-theorem composite_vector_is_map (t : Tbl ℝ) (mats : List (List (Atom × ℝ))) (ws weights : List ℝ)
-    (ρ : ℝ) (i : Nat) (hi : i < ws.length) :
-    (compositeSldV t mats ws weights ρ).get? i = some (compositeSld t mats ws[i] weights ρ) := by
-  unfold compositeSldV compositeSld
-  by_cases hd : ∀ l ∈ mats, AllData t l
-  · have hany : mats.any (fun m => m.any fun e => (t.neutron e.1).isNone) = false := by
-      rw [Bool.eq_false_iff]
-      intro h
-      obtain ⟨l, hl, hn⟩ := (any_any_missing_iff t mats).mp h
-      exact hn (hd l hl)
-    rw [mapM_sumPiece_allData t ws[i] mats hd]
-    have hparts : mats.map (sumsAt t ws[i]) = mats.map fun l => accSums t ws[i] Acc.zero l := by
-      apply List.map_congr_left; intro l hl; exact sumsAt_allData t _ l (hd l hl)
-    have hmm : (mats.map fun l => accSums t ws[i] Acc.zero l).map (·.molarMass)
-        = mats.map (molarMassOf t) := by
-      rw [List.map_map]; apply List.map_congr_left; intro l _
-      simp [molarMassOf_eq, accSums, Acc.zero]
-    simp only [hany, Bool.false_eq_true, if_false]
-    by_cases hz : dotSum weights (mats.map (molarMassOf t)) * ρ = 0
-    · simp only [beq_iff_eq, hz, if_true, CompOutV.get?]
-      rw [compositeCompute_zero _ _ _ (by rw [hmm]; exact hz)]
-    · simp only [beq_iff_eq, hz, if_false, CompOutV.get?, List.getElem?_map,
-        List.getElem?_eq_getElem hi, Option.map_some, Option.some.injEq]
-      rw [hparts]
-      obtain ⟨a, b, c, habc⟩ := compositeCompute_ok_of_nonzero
-        (mats.map fun l => accSums t ws[i] Acc.zero l) weights ρ (by rw [hmm]; exact hz)
-      rw [habc]; rfl
-  · have hex : ∃ l ∈ mats, ¬ AllData t l := by
-      by_contra hc; apply hd; intro l hl; by_contra hn; exact hc ⟨l, hl, hn⟩
-    have hany : mats.any (fun m => m.any fun e => (t.neutron e.1).isNone) = true :=
-      (any_any_missing_iff t mats).mpr hex
-    rw [mapM_sumPiece_missing t _ mats hex]
-    simp [hany, CompOutV.get?]
-
-theorem composite_vector_length (t : Tbl ℝ) (mats : List (List (Atom × ℝ))) (ws weights : List ℝ)
-    (ρ : ℝ) (l : List (ℝ × ℝ × ℝ)) (h : compositeSldV t mats ws weights ρ = .ok l) :
-    l.length = ws.length := by
-  unfold compositeSldV at h
-  split at h
-  · cases h
-  · simp only at h
-    split at h
-    · cases h
-    · cases h; simp
-
-/-! ## C16: D2O contrast -/
-
-theorem mixValues_zero (a b : Sld3 ℝ) : mixValues a b 0 = b := by
-  unfold mixValues; ext <;> simp
-
-theorem mixValues_one (a b : Sld3 ℝ) : mixValues a b 1 = a := by
-  unfold mixValues; ext <;> simp
-
-/-- at volume fraction 0 the solution is the H2O/D2O solvent mixture -/
-theorem vf0_is_solvent (t : Tbl ℝ) (c : Compound ℝ) (w d : ℝ) :
-    d2oSld t c w 0 d = (d2oSlds t c w).map fun s => mixValues s.2.1 s.1 d := by
-  unfold d2oSld
-  cases d2oSlds t c w with
-  | none => rfl
-  | some s => obtain ⟨h2o, d2o, hs, ds⟩ := s; simp [mixValues_zero]
-
-/-- at volume fraction 1 the solution is the solute: the D- and H-substituted compounds mixed
-    by the D2O fraction -/
-theorem vf1_is_solute (t : Tbl ℝ) (c : Compound ℝ) (w d : ℝ) :
-    d2oSld t c w 1 d = (d2oSlds t c w).map fun s => mixValues s.2.2.2 s.2.2.1 d := by
-  unfold d2oSld
-  cases d2oSlds t c w with
-  | none => rfl
-  | some s => obtain ⟨h2o, d2o, hs, ds⟩ := s; simp [mixValues_one]
-
-/-- in between the three SLDs mix linearly in the volume fraction -/
-theorem linear_in_volume_fraction (t : Tbl ℝ) (c : Compound ℝ) (w vf d : ℝ) (s1 s0 : Sld3 ℝ)
-    (h1 : d2oSld t c w 1 d = some s1) (h0 : d2oSld t c w 0 d = some s0) :
-    d2oSld t c w vf d = some (mixValues s1 s0 vf) := by
-  rw [vf1_is_solute] at h1; rw [vf0_is_solvent] at h0
-  unfold d2oSld
-  cases hs : d2oSlds t c w with
-  | none => rw [hs] at h1; cases h1
-  | some s =>
-    obtain ⟨h2o, d2o, hsld, dsld⟩ := s
-    rw [hs] at h1 h0
-    simp only [Option.map_some, Option.some.injEq] at h1 h0 ⊢
-    rw [← h1, ← h0]
-
-/-- the denominator of the match point: `SLD(D) − SLD(H) + SLD(H2O) − SLD(D2O)` (real parts) -/
-noncomputable def matchDenominator (s : Sld3 ℝ × Sld3 ℝ × Sld3 ℝ × Sld3 ℝ) : ℝ :=
-  s.2.2.2.1 - s.2.2.1.1 + s.1.1 - s.2.1.1
-
-/-- **match point**: at the reported D2O fraction the real SLD of the solution is the same for
-    every volume fraction, namely the reported SLD -/
-theorem match_point_independent_of_vf (t : Tbl ℝ) (c : Compound ℝ) (w : ℝ)
-    (s : Sld3 ℝ × Sld3 ℝ × Sld3 ℝ × Sld3 ℝ) (hs : d2oSlds t c w = some s)
-    (hden : matchDenominator s ≠ 0) (f sld : ℝ) (hm : d2oMatch t c w = some (f, sld)) (vf : ℝ) :
-    (d2oSld t c w vf f).map (·.1) = some sld := by
-  obtain ⟨h2o, d2o, hsld, dsld⟩ := s
-  unfold d2oMatch at hm; unfold d2oSld
-  rw [hs] at hm ⊢
-  simp only [Option.map_some, Option.some.injEq, Prod.mk.injEq] at hm ⊢
-  obtain ⟨hf, hsl⟩ := hm
-  rw [hf] at hsl
-  rw [← hsl]
-  simp only [mixValues]
-  simp only [matchDenominator] at hden
-  have hf' : f * (dsld.1 - hsld.1 + h2o.1 - d2o.1) = h2o.1 - hsld.1 := by
-    rw [← hf]; field_simp
-  have : dsld.1 * f + hsld.1 * (1 - f) = d2o.1 * f + h2o.1 * (1 - f) := by linarith
-  rw [← this]; ring
-
-/-- … and it is the only such fraction: if the real SLD at D2O fraction `d` is the same at volume
-    fractions 0 and 1, then `d` is the reported match point -/
-theorem match_point_unique (t : Tbl ℝ) (c : Compound ℝ) (w : ℝ)
-    (s : Sld3 ℝ × Sld3 ℝ × Sld3 ℝ × Sld3 ℝ) (hs : d2oSlds t c w = some s)
-    (hden : matchDenominator s ≠ 0) (f sld : ℝ) (hm : d2oMatch t c w = some (f, sld)) (d : ℝ)
-    (heq : (d2oSld t c w 0 d).map (·.1) = (d2oSld t c w 1 d).map (·.1)) : d = f := by
-  obtain ⟨h2o, d2o, hsld, dsld⟩ := s
-  unfold d2oMatch at hm; unfold d2oSld at heq
-  rw [hs] at hm heq
-  simp only [Option.map_some, Option.some.injEq, Prod.mk.injEq, mixValues] at hm heq
-  obtain ⟨hf, _⟩ := hm
-  simp only [matchDenominator] at hden
-  rw [← hf, eq_div_iff hden]
-  linarith
-
-/-! ### fasta.Molecule reports the same numbers -/
-
-/-- the two modules use the same solvent literals -/
-theorem fasta_water_eq_nsf_water :
-    (PtGen.fasta_H2O_natural_density : ℝ) = PtGen.nsf_H2O_natural_density ∧
-    (PtGen.fasta_D2O_natural_density : ℝ) = PtGen.nsf_D2O_natural_density := by
-  unfold PtGen.fasta_H2O_natural_density PtGen.nsf_H2O_natural_density
-    PtGen.fasta_D2O_natural_density PtGen.nsf_D2O_natural_density
-  constructor <;> norm_num
-
-theorem fastaWaterSld_eq (t : Tbl ℝ) (h : Atom) (nd : ℝ) :
-    fastaWaterSld t h nd = (compoundSld t (water t h nd) PtGen.ABSORPTION_WAVELENGTH).map (·.1) := rfl
-
-/-- `Molecule.sld`, `.Dsld` are the real SLDs of the H- and D-substituted forms and
-    `.D2Omatch` is `100 ×` the match fraction of `D2O_match` (default wavelength) -/
-theorem fasta_match_is_percentage (t : Tbl ℝ) (m : Compound ℝ) (mol : Molecule ℝ)
-    (hmol : molecule t m = some mol) :
-    ∃ s f sld, d2oSlds t m PtGen.ABSORPTION_WAVELENGTH = some s ∧
-      d2oMatch t m PtGen.ABSORPTION_WAVELENGTH = some (f, sld) ∧
-      mol.sld = s.2.2.1.1 ∧ mol.dsld = s.2.2.2.1 ∧ mol.d2oMatch = 100 * f := by
-  obtain ⟨e1, e2⟩ := fasta_water_eq_nsf_water
-  unfold molecule at hmol
-  simp only [fastaWaterSld_eq, e1, e2] at hmol
-  unfold d2oMatch d2oSlds
-  cases h1 : compoundSld t (water t atomH PtGen.nsf_H2O_natural_density) PtGen.ABSORPTION_WAVELENGTH with
-  | none => simp [h1] at hmol
-  | some a =>
-    cases h2 : compoundSld t (water t atomD PtGen.nsf_D2O_natural_density) PtGen.ABSORPTION_WAVELENGTH with
-    | none => simp [h1, h2] at hmol
-    | some b =>
-      cases h3 : compoundSld t (replace t.atomMass m atomH1 atomH 1) PtGen.ABSORPTION_WAVELENGTH with
-      | none => simp [h1, h2, h3] at hmol
-      | some hsl =>
-        cases h4 : compoundSld t (replace t.atomMass m atomH1 atomD 1) PtGen.ABSORPTION_WAVELENGTH with
-        | none => simp [h1, h2, h3, h4] at hmol
-        | some dsl =>
-          simp only [h1, h2, h3, h4, Option.map_some, Option.some.injEq] at hmol
-          refine ⟨(a, b, hsl, dsl), _, _, rfl, rfl, ?_, ?_, ?_⟩
-          · rw [← hmol]
-          · rw [← hmol]
-          · rw [← hmol]; simp only [lit]; push_cast; ring
-
-/-- `Molecule.D2Osld(vf, d)` is the real part of `D2O_sld(labile formula, vf, d)` -/
-theorem fasta_D2Osld_eq (t : Tbl ℝ) (m : Compound ℝ) (vf d : ℝ) :
-    moleculeD2Osld t m vf d = (d2oSld t m PtGen.ABSORPTION_WAVELENGTH vf d).map (·.1) := by
-  obtain ⟨e1, e2⟩ := fasta_water_eq_nsf_water
-  unfold moleculeD2Osld molecule d2oSld d2oSlds
-  simp only [fastaWaterSld_eq, e1, e2]
-  cases h1 : compoundSld t (water t atomH PtGen.nsf_H2O_natural_density) PtGen.ABSORPTION_WAVELENGTH with
-  | none => simp
-  | some a =>
-    cases h2 : compoundSld t (water t atomD PtGen.nsf_D2O_natural_density) PtGen.ABSORPTION_WAVELENGTH with
-    | none => simp
-    | some b =>
-      cases h3 : compoundSld t (replace t.atomMass m atomH1 atomH 1) PtGen.ABSORPTION_WAVELENGTH with
-      | none => simp
-      | some hsl =>
-        cases h4 : compoundSld t (replace t.atomMass m atomH1 atomD 1) PtGen.ABSORPTION_WAVELENGTH with
-        | none => simp
-        | some dsl =>
-          simp only [Option.map_some, Option.some.injEq, mixValues]
-          ring
-
 end PtProofs.Neutron
